@@ -31,6 +31,7 @@ CONSTANTS DirNames, FileNames, MaxDepth,
           HiddenNames,       \* names starting with a dot
           DefaultExcludes,   \* the built-in bare-name exclusions that occur in the pools
           Supported,         \* extensions that map to a supported language
+          SupportedNames,    \* whole file names (no extension) that map to a supported language, e.g. SConstruct
           Patterns,          \* the pattern pool
           MaxPatterns, Sources, RootForms,
           CheckTargets,      \* {"none"} or the set of targets `check` is pointed at (abstract classes or concrete)
@@ -58,7 +59,7 @@ Matches(pat, path) ==
     [] pat.cls = "star" -> Len(path) >= 2 /\ path[1] = pat.a
 DefaultPats == { [cls |-> "bare", a |-> n] : n \in DefaultExcludes }
 Excluded(path, pats) == \E pat \in DefaultPats \cup pats : Matches(pat, path)
-SupportedFile(path) == Last(path)[2] \in Supported
+SupportedFile(path) == Last(path)[2] \in Supported \/ Last(path) \in SupportedNames
 Contributes(path, pats) == ~Hidden(path) /\ ~Excluded(path, pats) /\ SupportedFile(path)
 Selected(pats) == { p \in U : Contributes(p, pats) }
 IsPrefix(d, p) == Len(d) < Len(p) /\ SubSeq(p, 1, Len(d)) = d
